@@ -29,6 +29,12 @@ CHECKS = {
  'C12': ('mapped', 'exhaustive enumeration of create/raw-create/reopen/destroy histories per input on the real MappedPGMIndex, byte-level file comparison',
          'For every sorted array up to N (first key negative, zero, positive) every history of the stated length over {create from range, create from raw file, reopen f1, reopen f2, destroy object i}: after every step all live objects pass the C11 battery, the two files are byte-identical, reopened objects hold the same index members as the creator, files never change.',
          'As C11.', '4/C12'),
+ 'C16': ('conc', 'stateless model checking of thread schedules on the real code: access monitor over compiler instrumentation (own __tsan_* runtime) proves the shared write set empty; preemption-bounded exhaustive DFS over schedules under a serialising hand-off scheduler; free-running ThreadSanitizer as cross-check',
+         'For 7 objects x 8 read-only queries: (1) every query is executed under a monitor fed by clang -fsanitize=thread instrumentation; any write to memory that is neither the thread stack nor allocated inside the query is a data race between two threads running that query, and is reported with its addresses; on the unchanged tree the shared write set is empty, which makes all interleavings of any number of readers equivalent. (2) All schedules of 2 threads x 2 calls and 3 threads x 1 call over a 4-query alphabet per class are executed on real threads up to preemption bound 2 (3 thorough), with scheduling points at call boundaries, conflict-set accesses, atomics and mutex operations; every call must return its solo digest; a call that does not return within an access horizon is a violation. (3) 16 free-running threads under the real TSan runtime.',
+         'Sequentially consistent interleavings; instrumentation covers the header-only library, libstdc++ templates, memcpy/memmove/memset and the allocator (interposed); failing schedules are replayed before they are reported.', '4/C16'),
+ 'C17': ('memsafe', 'bounded-exhaustive enumeration (the corpora of the other engines at reduced bounds) executed under AddressSanitizer with sdsl asserts enabled; sanitizer report or fatal signal = violation',
+         'The search, multidim, mapped, dynamic, cabi and copymove engines are rebuilt with -fsanitize=address (recover mode, _GLIBCXX_SANITIZE_VECTOR, no NDEBUG) and run over their own input/history spaces: smallest sizes, empty containers, queries at lowest()/below first/above last/max-1, iterators driven to end(), boxes reaching the last point, copies outliving sources. Every case that triggers a sanitizer report, a failed assert or a fatal signal is a violation; wrong answers are left to the owning property.',
+         'ASan granularity; reduced bounds (N<=5 static, shorter histories).', '4/C17'),
  'C18': ('cabi', 'bounded-exhaustive enumeration of inputs (static) and of call histories (dynamic) through the C functions of cpgm.h only, std::lower_bound / std::map oracles',
          'Static: every sorted array up to N for the four C types with run-time epsilon in {1,2,3,64,4096} and the block grammar, all alphabet queries, NULL exactly when the reserved value is present. Dynamic: every history of insert_or_assign/erase over 4 colliding keys x 2 values up to the stated depth from create_empty, from every create() of <= 3 pairs and from a deep state whose next insert merges the 585-entry buffer into level 4; find, lower_bound + iterator_next, begin + iterator_next to exhaustion, size compared with std::map after every step.',
          'cpgm.cpp compiled from the repository; opaque handles cannot be copied, so histories are re-executed from scratch.', '4/C18'),
@@ -112,6 +118,10 @@ def main():
              'kind_free_text': 'exhaustive value-semantics histories under AddressSanitizer'},
             {'name': 'reject', 'path': 'engines/reject.cpp', 'serves_properties': ['C20'],
              'kind_free_text': 'exhaustive enumeration of invalid inputs and their valid neighbours'},
+            {'name': 'conc', 'path': 'engines/conc_main.cpp', 'serves_properties': ['C16'],
+             'kind_free_text': 'access monitor + preemption-bounded schedule explorer over a hand-off scheduler (mc/vrt.cpp), zoo compiled with clang TSan instrumentation'},
+            {'name': 'memsafe', 'path': 'scripts/check_c17.py', 'serves_properties': ['C17'],
+             'kind_free_text': 'AddressSanitizer builds of the other engines over their corpora, memory-only verdicts'},
             {'name': 'segmentation', 'path': 'engines/segmentation.cpp', 'serves_properties': ['C03', 'C04'],
              'kind_free_text': 'bounded-exhaustive enumeration of inputs to the piecewise-linear builder with hook H1 and exact rational oracles'},
         ],
